@@ -679,6 +679,44 @@ pub fn spanning_cases() -> Vec<(&'static str, Vec<(&'static str, String)>, Strin
     v
 }
 
+/// Two files of the same name in two directories, each included by its bare name from a file that
+/// lives next to it: "the directory of the including file" decides, in whatever order the two
+/// directories are visited and whatever their names are.
+fn same_name_leg(ev: &mut Ev) {
+    for (first, second) in [("zz", "aa"), ("aa", "zz"), ("m1", "m2"), ("m2", "m1")] {
+        // (reaching the two user files by bare names through two .includepath directives would make both
+        //  directories documented places for defs.inc; which one wins then is not stated, so only the
+        //  variant in which the other directory is known for no documented reason is judged)
+        for via_includepath in [false] {
+            ev.eval();
+            ev.class("same-file-name-in-two-directories");
+            let root = scratch_dir().join(format!("c11-same-{}-{}-{}", first, second, via_includepath));
+            let _ = std::fs::remove_dir_all(&root);
+            for d in [first, second] {
+                let _ = std::fs::create_dir_all(root.join(d));
+            }
+            let val = |d: &str| if d == first { 0x1111 } else { 0x2222 };
+            for d in [first, second] {
+                let _ = std::fs::write(root.join(d).join("defs.inc"), format!(".dw {}\n", val(d)));
+                let _ = std::fs::write(root.join(d).join(format!("user_{}.inc", d)), ".include \"defs.inc\"\n");
+            }
+            // the two user files are reached by a path with the directory in it, or by a bare name
+            // through an .includepath (relative to the main file) issued just before
+            let inc = |d: &str| if via_includepath { format!(".includepath \"{}\"\n.include \"user_{}.inc\"\n", d, d) } else { format!(".include \"{}/user_{}.inc\"\n", d, d) };
+            let main = format!(".dw 1\n{}.dw 2\n{}.dw 3\n", inc(first), inc(second));
+            let _ = std::fs::write(root.join("main.asm"), &main);
+            let pasted = format!(".dw 1\n.dw {}\n.dw 2\n.dw {}\n.dw 3\n", val(first), val(second));
+            ev.nt(fp(&(first, second, via_includepath)));
+            let tree_out = build_file(root.join("main.asm"), BTreeSet::new());
+            let flat_out = build(&pasted);
+            if let Err((k, why)) = compare(&tree_out, &flat_out, &[]) {
+                ev.violation(Violation { sig: format!("c11:same-name:{}", if via_includepath { "includepath" } else { "path-with-directory" }), what: format!("[{} then {}] {} ({})", first, second, why, k), replay: json!({"kind": "same_name", "first": first, "second": second, "via_includepath": via_includepath}) });
+            }
+            let _ = std::fs::remove_dir_all(&root);
+        }
+    }
+}
+
 fn spanning_leg(ev: &mut Ev) {
     for (tag, files, pasted, sig) in spanning_cases() {
         ev.eval();
@@ -707,6 +745,7 @@ pub fn run(ctx: &Ctx) -> Result<Ev, String> {
     let mut total = par::run_shards("C11", shards, |s| par::prop_shard("C11", seed, s, per, &raw_tree(), |c, ev| test(c, ev, &opts, &format!("{}", s))));
     many_includes_leg(&mut total);
     spanning_leg(&mut total);
+    same_name_leg(&mut total);
     if total.has_violation() {
         return Ok(total);
     }
